@@ -937,6 +937,10 @@ impl<'a> Parser<'a> {
         };
         let mut first = true;
         let mut in_range = false;
+        // Whether the previous item completed a range. A '-' directly after a
+        // range does not extend that range: it is a literal (or starts a
+        // range of its own), as in fnmatch and git.
+        let mut after_range = false;
         loop {
             let c = match self.bump() {
                 Some(c) => c,
@@ -961,12 +965,17 @@ impl<'a> Parser<'a> {
                         let r = ranges.last_mut().unwrap();
                         add_to_last_range(&self.glob, r, '-')?;
                         in_range = false;
+                        after_range = true;
+                    } else if after_range {
+                        ranges.push(('-', '-'));
+                        after_range = false;
                     } else {
                         assert!(!ranges.is_empty());
                         in_range = true;
                     }
                 }
                 c => {
+                    after_range = in_range;
                     if in_range {
                         // invariant: in_range is only set when there is
                         // already at least one character seen.
